@@ -25,7 +25,7 @@ TRUSTED = ["correspondence harness props/C18.py + props/_c18_sim.py (SimKernel: 
            "the real C wrappers (proc.c, _psutil_posix.c) are tied to the model only by the LIVE cases"]
 ASSUMPTIONS = ["Process._raise_if_pid_reused() passes (the object still denotes its process): C01/C02 own that layer",
                "the caller is privileged (root): no EPERM from the kernel for in-range requests",
-               "the status text before the Cpus_allowed_list line is fixed text in the model (no field there can contain the key)",
+               "the status text around the Cpus_allowed_list line is fixed text in the model",
                "x86_64 syscall numbers 251/252 for the raw ioprio calls"]
 EXHAUSTIVE = {"quick": "nice -20..19 (sim+live); I/O class 0-3 x level None,0..7 (sim+live); all 63 non-empty subsets of a 6-CPU eligible set (sim) "
                        "and all 15 of 4 live CPUs; 16 RLIMIT_* x 7 value pairs (sim)",
@@ -280,44 +280,26 @@ def coq_term(case):
 
 
 def coq_struct(case, raw):
-    if raw[5] is not True:
+    if raw[6] is not True:
         raise RuntimeError("C18 generator produced an ill-formed kernel state: %r" % (case,))
-    return {"printed": raw[0], "model": [raw[1], raw[2], raw[3]], "spec": raw[4]}
+    return {"printed": raw[0], "model": [raw[1], raw[2], raw[3], raw[4]], "spec": raw[5]}
 
 
-# ------------------------------------------------------------------ findings
-def _target(case):
-    return [p for p in case["procs"] if p["pid"] == case["pid"]][0]
-
-
-def finding_key(case, coq):
-    req = case["req"]
-    if req[0] != "aff" or req[1] is None:
-        return None
-    p = _target(case)
-    cpus, elig = req[1], p["elig"]
-    if any(c < S.LONG_MIN or c > S.LONG_MAX for c in cpus):
-        return "cpu_affinity-huge-cpu-overflowerror" if not any(c in elig for c in cpus) and -1 not in cpus else None
-    parsed = S.parsed_eligible(p["mask"], case["ncpu"])
-    if not cpus:
-        # cpu_affinity([]): the list the code sets, as the kernel clips it, is not the eligible set
-        if [c for c in elig if c in parsed] != elig:
-            return "cpu_affinity-empty-not-all-eligible"
-        return None
-    if not any(c in elig for c in cpus) and -1 not in cpus and all(0 <= c < case["ncpu"] and c in parsed for c in cpus):
-        # only ineligible CPUs, none of which the code's own idea of 'eligible' rules out
-        return "cpu_affinity-ineligible-oserror"
-    return None
-
-
+# ------------------------------------------------------------------ verdict
 def judge(case, coq, impl):
-    from pv.core import Verdict, default_judge
+    """impl = [answer, get form afterwards, state of every process afterwards, _get_eligible_cpus() before];
+    the first three are what the property speaks about (spec), the fourth ties the status parser to the model."""
+    from pv.core import Verdict
     if isinstance(impl, dict) and impl.get("t") == "Skip":
         return Verdict("skip", str(impl.get("a")))
     m = coq["model"][0]
     if isinstance(m, dict) and m.get("t") == "OutOfModel":
         return Verdict("skip", "OutOfModel")
-    return default_judge(None, case, coq, impl)
+    if coq["spec"] is not None and impl[:3] != coq["spec"]:
+        return Verdict("violation", "impl != spec")
+    if impl != coq["model"]:
+        return Verdict("corr", "impl != model")
+    return Verdict("ok")
 
 
 # ------------------------------------------------------------------ implementation side
@@ -384,6 +366,7 @@ def _run_sim(case, coq, env):
         for m, n in saved:
             setattr(m, n, getattr(sk, n))
         p = psutil.Process(case["pid"])
+        elig = outcome(p._proc._get_eligible_cpus, _conv)
         try:
             res = outcome(_call(p, case["req"]), _conv)
         except S.OutOfModel as e:
@@ -394,7 +377,7 @@ def _run_sim(case, coq, env):
     finally:
         for m, n, f in orig:
             setattr(m, n, f)
-    return [res, got, sk.dump()]
+    return [res, got, sk.dump(), elig]
 
 
 _live_state = {}
@@ -475,6 +458,7 @@ def _run_live2(case, req, res_idx, child, real):
         if (b["nice"], b["ioprio"], b["mask"], b["rlim"]) != (st["nice"], st["ioprio"], st["mask"], st["rlim"]):
             return T("Skip", "could not bring the live child into the start state: %r vs %r" % (b, st))
     p = psutil.Process(child.pid)
+    elig = outcome(p._proc._get_eligible_cpus, _conv)
     res = outcome(_call(p, req), _conv)
     got = outcome(_get_call(p, req), _conv)
     dump = []
@@ -489,20 +473,21 @@ def _run_live2(case, req, res_idx, child, real):
             elif a["rlim"][r] != b["rlim"][r]:
                 rl[r] = ["changed", b["rlim"][r], a["rlim"][r]]
         dump.append([st["pid"], a["nice"], a["ioprio"], a["mask"], list(st["elig"]), rl])
-    return [res, got, dump]
+    return [res, got, dump, elig]
 
 
 MANIFEST = {
-    "text": "Theorems (Coq, closed under the global context) about the model of Process.nice/ionice/cpu_affinity/rlimit over a simulated kernel: "
-            "class<<13|data packing round-trips for every class < 2^18 and data < 2^13; the get forms return what the kernel holds (incl. a "
-            "legitimate nice -1 and the growing CPU-set loop for every nr_cpu_ids <= 2^30); after a set with any valid value (nice -20..19, "
-            "class x level, any non-empty list of eligible CPUs with duplicates, any resource with soft<=hard incl. RLIM_INFINITY) the kernel entry "
-            "and the get form equal exactly that value, every other field and every other process unchanged; the listed invalid requests give "
-            "ValueError with the kernel unchanged; cpu_affinity([]) selects all eligible CPUs -- the last two for processes whose eligible set "
-            "is one a-b range and which were never narrowed; outside that class refuted theorems exhibit the defects of _get_eligible_cpus "
-            "(first a-b token of the CURRENT mask) and the OverflowError for CPU ids beyond a C long. One theorem ties the whole model to the "
-            "specification function used as the oracle. The model is tied to the code by running both on the same requests (simulated kernel: "
-            "full finite sweeps; live kernel: spawned child + bystander read back with raw system calls).",
+    "text": "Theorems (Coq, closed under the global context) about the model of Process.nice/ionice/cpu_affinity/rlimit over a simulated kernel "
+            "that clips affinity requests to the process's eligible CPUs (EINVAL on an empty intersection): class<<13|data packing round-trips for "
+            "every class < 2^18 and data < 2^13; the get forms return what the kernel holds (incl. a legitimate nice -1 and the growing CPU-set "
+            "loop for every nr_cpu_ids <= 2^30); after a set with any valid value (nice -20..19, class x level, any non-empty list of eligible "
+            "CPUs with duplicates, any resource with soft<=hard incl. RLIM_INFINITY) the kernel entry and the get form equal exactly that value, "
+            "every other field and every other process unchanged; the listed invalid requests (incl. every non-empty CPU list without an eligible "
+            "CPU, ids of any size) give ValueError with the kernel unchanged; cpu_affinity([]) selects all eligible CPUs for every eligible set "
+            "and every current mask. Four legacy theorems keep the repaired defects (638fb52, 07b12aa, 7214dea) refuted on the old code. One "
+            "theorem ties the whole model to the specification function used as the oracle, without exclusions. The model is tied to the code "
+            "by running both on the same requests (simulated kernel: full finite sweeps; live kernel: spawned child + bystander read back with "
+            "raw system calls).",
     "note": "Trusted: Coq kernel + vm_compute; kernel rules and status format in coq/C18/Kernel.v; hand-written model coq/C18/Model.v (tied by the "
             "correspondence run only); SimKernel and the live accessors in props/_c18_sim.py; CPython (re, set order, resource module). The real "
             "kernel's semantics are sampled by the live cases, not modelled beyond Kernel.v; the C wrappers are exercised by the live cases only.",
